@@ -9,9 +9,10 @@ sys.path.insert(0, "/verif")
 from harness.selftest import scratch_copy, run_repo_tests, run_check
 
 pid, which = sys.argv[1], sys.argv[2]
-extra = sys.argv[3:]
-src = Path(f"/tmp/wt/{pid}/_seed/{which}")
-sid = f"{pid}-{which}"
+extra = [a for a in sys.argv[3:] if not a.startswith("--")]
+wtname = next((a.split("=", 1)[1] for a in sys.argv[3:] if a.startswith("--dir=")), pid)
+src = Path(f"/tmp/wt/{wtname}/_seed/{which}")
+sid = f"{pid}-{which}" if wtname == pid else f"{pid}-{wtname[0]}{which}"
 dst = Path("/verif/seeded") / sid
 demo = next(iter(list(src.glob("demo*.py")) + list(src.glob("*.py"))), None)
 assert (src / "patch.diff").exists() and demo, f"incomplete seed in {src}"
